@@ -889,8 +889,8 @@ def filter_literal(
     elif isinstance(ty, pydsdl.FloatType):
         if value.denominator == 1:
             expr = "{}.0".format(value.numerator)
-        else:
-            expr = "({}.0 / {}.0)".format(value.numerator, value.denominator)
+        else:  # a part beyond the range of double would fold to inf (the constant to 0): emit the nearest double instead
+            expr = "({}.0 / {}.0)".format(value.numerator, value.denominator) if value.denominator < 2**1023 else repr(float(value))
         cast = filter_type_from_primitive(language, ty)
         return cast_format.format(type=cast, value=expr)
 
